@@ -135,6 +135,16 @@ func runC13(c *eng.Ctx, tier string) {
 		if n == 0 {
 			c.Undecided("R-C13-1", run, run.Pos(), "poller shutdown", "no select on ctx.Done() found")
 		}
+		// ... and the poller has no other way out: whichever way it stops, the
+		// cache is rewritten first (what an earlier failed flush left out is
+		// persisted at shutdown at the latest)
+		hit, path := eng.Search(run, nil, nil, isFlush, eng.IsReturn)
+		c.Check(hit == nil, "R-C13-1", run, run.Pos(), "ways out of the poller", "every return of the poller is preceded by the shutdown flush", func() string {
+			if hit == nil {
+				return ""
+			}
+			return "return at " + p.Pos(hit.Pos()) + " reached without flush: " + p.PathStr(path)
+		}())
 	} else {
 		c.Undecided("R-C13-1", nil, 0, "setec.(*Store).run", "anchor does not resolve")
 	}
@@ -244,8 +254,28 @@ func c13NewStoreFlush(c *eng.Ctx, isFlush func(ssa.Instruction) bool) {
 		return
 	}
 	var flush *ssa.Call
+	initAnchor := anchor(p, setecPkg, "(*Store).initializeActive")
 	eng.Instrs(ns, func(in ssa.Instruction) {
 		if isFlush(in) {
+			if flush != nil {
+				// (an earlier flush site: the same "never with stubs in the set" condition)
+				prev := flush
+				okInit := false
+				for _, cond := range eng.FactsAt(prev) {
+					if v, isNil, isE := cond.ErrCheck(); isE && isNil {
+						if call, _ := eng.TupleCall(v); call != nil && eng.Callee(&call.Call) == initAnchor && initAnchor != nil {
+							okInit = true
+						}
+					}
+				}
+				reach := false
+				for _, st := range stubs {
+					if hit, _ := eng.Search(ns, st, nil, nil, func(x ssa.Instruction) bool { return x == ssa.Instruction(prev) }); hit != nil {
+						reach = true
+					}
+				}
+				c.Check(okInit || !reach, "R-C13-1", ns, prev.Pos(), "NewStore: flush after successful initialisation", "edge-dominated by the nil error of initializeActive (a cache written while stubs of unfetched names are in the set is rejected as a whole at the next start)", "holding: "+eng.FactsString(prev))
+			}
 			flush = in.(*ssa.Call)
 		}
 	})
@@ -691,7 +721,11 @@ func c13BadCache(c *eng.Ctx) {
 		c.Bad("R-C13-5", unmFn, unm.Pos(), "validity check of the decoded cache", "the decoded cache is validated before use", "no validity check is called")
 		return
 	}
-	hit, path = rejected(validFn, valid, eng.AssumeBool(valid, false), 0)
+	invalidEdge := eng.AssumeBool(valid, false)
+	if eng.IsErrorType(valid.Type()) {
+		invalidEdge = eng.AssumeErr(valid, false) // the gate answers with an error
+	}
+	hit, path = rejected(validFn, valid, invalidEdge, 0)
 	c.Check(hit == nil, "R-C13-5", validFn, valid.Pos(), "invalid-cache edge", "an invalid cache is discarded as a whole (map cleared) before it is used", func() string {
 		if hit == nil {
 			return ""
@@ -809,17 +843,13 @@ func c13Validity(c *eng.Ctx) {
 						return true
 					}
 					if r, isR := x.(*ssa.Return); isR {
-						rv := eng.RetVals(r)
-						k, isC := eng.Origin(rv[0]).(*ssa.Const)
-						return !(isC && k.Value != nil && k.Value.String() == "false")
+						return !gateRejects(r)
 					}
 					return false
 				})
 				first := succ.Instrs[0]
 				if r, isR := first.(*ssa.Return); isR {
-					rv := eng.RetVals(r)
-					k, isC := eng.Origin(rv[0]).(*ssa.Const)
-					if !(isC && k.Value.String() == "false") {
+					if !gateRejects(r) {
 						bad = first
 					}
 				}
@@ -855,7 +885,7 @@ func c13Validity(c *eng.Ctx) {
 				if !loop.Body.Dominates(r.Block()) {
 					continue
 				}
-				if k, isC := eng.Origin(eng.RetVals(r)[0]).(*ssa.Const); isC && k.Value != nil && k.Value.String() == "false" {
+				if gateRejects(r) {
 					continue
 				}
 				judge(r)
@@ -888,8 +918,15 @@ func c13Validity(c *eng.Ctx) {
 	// `return true` only after the loop
 	for _, r := range eng.Returns(f) {
 		rv := eng.RetVals(r)
-		if k, isC := eng.Origin(rv[0]).(*ssa.Const); isC && k.Value.String() == "true" {
-			c.Check(!loop.Body.Dominates(r.Block()), "R-C13-6", f, r.Pos(), eng.InstrStr(r), "the set is valid only after every entry was examined", "true returned from inside the loop")
+		accepts := false
+		if k, isC := eng.Origin(rv[0]).(*ssa.Const); isC && k.Value != nil && k.Value.String() == "true" {
+			accepts = true
+		}
+		if eng.IsErrorType(rv[0].Type()) && eng.IsNilConst(eng.Origin(rv[0])) {
+			accepts = true
+		}
+		if accepts {
+			c.Check(!loop.Body.Dominates(r.Block()), "R-C13-6", f, r.Pos(), eng.InstrStr(r), "the set is valid only after every entry was examined", "accepted from inside the loop")
 		}
 	}
 }
@@ -1041,4 +1078,18 @@ func c13WholeFile(c *eng.Ctx) {
 			c.Undecided("R-C13-9", rd, r.Pos(), eng.InstrStr(r), "not a recognised whole-file read (os.ReadFile, or io.ReadAll of the opened file)")
 		}
 	}
+}
+
+// gateRejects: the return of the validity gate says "invalid": the constant
+// false, or (for a gate answering with an error) a value that is certainly
+// not nil.
+func gateRejects(r *ssa.Return) bool {
+	rv := eng.RetVals(r)
+	if len(rv) != 1 {
+		return false
+	}
+	if k, isC := eng.Origin(rv[0]).(*ssa.Const); isC && k.Value != nil && k.Value.String() == "false" {
+		return true
+	}
+	return eng.IsErrorType(rv[0].Type()) && nonNilAt(rv[0], eng.FactsAt(r)) == eng.Yes
 }
